@@ -942,7 +942,37 @@ class Gen:
                         if pat_store.match(bt) and k == 1: uses += 1
                         else: ok = False; break
                     if ok and uses >= 1: fg.rawmove.add(nm)
-        # pass B: emit
+        # pass B: emit -- blocks in reverse post-order of the CFG, so that the only backward gotos of the generated C are
+        # real loop back edges (LLVM's textual order may put a latch/continue block in the middle of the loop body; every
+        # later jump to it is then a backward goto, which CBMC unwinds as an additional nested loop and whose unwinding
+        # assertion can fail although no execution iterates that often)
+        if self.opts.rpo and parsed:
+            succ = {}
+            names = set(bn for bn, _ in parsed)
+            for bn, pl in parsed:
+                out = []
+                if pl:
+                    term = pl[-1]
+                    for k in range(len(term) - 1):
+                        if term[k][1] == 'label':
+                            nm = term[k + 1][1]
+                            if nm.startswith('%'): nm = nm[1:]
+                            nm = nm.strip('"')
+                            if nm in names and nm not in out: out.append(nm)
+                succ[bn] = out
+            seen = set(); post = []
+            stack = [(parsed[0][0], iter(reversed(succ[parsed[0][0]])))]; seen.add(parsed[0][0])
+            while stack:
+                node, it = stack[-1]
+                adv = False
+                for nx in it:
+                    if nx not in seen:
+                        seen.add(nx); stack.append((nx, iter(reversed(succ[nx])))); adv = True; break
+                if not adv:
+                    post.append(node); stack.pop()
+            order = list(reversed(post))
+            byname = dict(parsed)
+            parsed = [(bn, byname[bn]) for bn in order] + [(bn, pl) for bn, pl in parsed if bn not in seen]
         for bn, pl in parsed:
             code.append('%s: ;' % self.blabels[bn])
             for toks in pl:
@@ -1685,6 +1715,12 @@ class Gen:
                 if t[0] == 'ptr' and t[1][0] in ('struct', 'lstruct'):
                     sa = self.size_align(t[1])
                     if sa and sa[0] == n: return t[1]
+        # an object that is only used as a cell of pointers (class with one smart-pointer member): pointer-typed, so that
+        # the stored pointer keeps its provenance (a pointer stored into a byte array is read back via byte_extract)
+        if n % 8 == 0 and n <= 32:
+            for l in fg.f['body']:
+                if pat.search(l) and re.search(r' to [^,]*\*\*\s*$', l.split(', !')[0]):
+                    return ('array', n // 8, ('ptr', ('int', 8)))
         return None
     def byval_args(self, fg, args, code):
         out = []
@@ -1877,6 +1913,7 @@ def main():
     ap.add_argument('--no-nsw', dest='nsw', action='store_false', default=True)
     ap.add_argument('--fp-hooks', action='store_true')
     ap.add_argument('--no-devirt', action='store_true')
+    ap.add_argument('--rpo', action='store_true', help='emit basic blocks in reverse post-order of the CFG instead of the textual order of the IR')
     ap.add_argument('--new-array-max', type=int, default=0, help='bytes given to every operator new[] of non-constant size (typed allocation)')
     ap.add_argument('--root', action='append', default=[], help='extra reachability root (function called only from C models)')
     ap.add_argument('--unreachable', action='append', default=[], help='function claimed unreachable: body replaced by a failing check + assume(0)')
